@@ -23,6 +23,7 @@ import (
 	"github.com/pkg/errors"
 
 	"github.com/kubewharf/kubebrain/pkg/storage"
+	"github.com/kubewharf/kubebrain/pkg/verifhook"
 )
 
 type batch struct {
@@ -135,5 +136,6 @@ func (b *batch) Commit(ctx context.Context) error {
 		}
 	}
 
+	verifhook.Point("badger.beforeCommit", b, ctx)
 	return b.txn.Commit()
 }
